@@ -156,13 +156,14 @@ def _run_hist(seed: int) -> dict:
                         viol.append({"signature": f"C04/hist/{st}/status-after-{tag}", "message": f"after {tag}: i{i} is {got}, model {status[i][:2]}; trace tail {trace[-5:]}"})
 
         def set_status(i: int, s: str, who: str) -> bool:
-            ok = {}
-            for st, app in env.apps.items():
+            def one(st: str, app: Any) -> bool:
                 try:
                     app.orchestrator.set_invocation_status(ids[i][st], InvocationStatus[s], ctxs[who])
-                    ok[st] = True
+                    return True
                 except Exception:  # noqa: BLE001
-                    ok[st] = False
+                    return False
+
+            ok = each(one)  # the same instant on both backends
             if all(ok.values()):
                 r = env.apps["mem"].orchestrator.get_invocation_status_record(ids[i]["mem"])
                 r2 = env.apps["sqlite"].orchestrator.get_invocation_status_record(ids[i]["sqlite"])
@@ -308,7 +309,7 @@ def _run_hist(seed: int) -> dict:
                     if st == "mem":
                         sel = mine
                     elif mine != sel:
-                        sel = sel | mine  # boundary straddled between the two backends' own stamps: skip strict compare
+                        viol.append({"signature": f"C04/hist/model-stamps-differ/{which}", "message": f"harness: the two backends carry different stamps for the same operation ({sorted(sel)} vs {sorted(mine)})"})
                         out["skip"] = True
                 if not out.get("skip"):
                     for i in sel:
